@@ -92,9 +92,10 @@ def run_bridge(case):
         out["bridge"] = br
         BR.Bridge.__init__(br, cin, cout)
         out["done"] = True
+        out["done_at"] = len(sched)
 
-    s.spawn("A", app)
     sched = []
+    s.spawn("A", app)
 
     def can(a):
         if a == EMIT:
@@ -142,7 +143,7 @@ def run_bridge(case):
     }
     info = {"crashed": {n: type(t.exc).__name__ for n, t in s.threads.items() if t.exc is not None},
             "pending": {n: t.label for n, t in s.threads.items() if not t.done},
-            "wire_left": len(din.wire), "spont_left": len(spont),
+            "wire_left": len(din.wire), "spont_left": len(spont), "done_at": out.get("done_at"),
             "peer_in_q_other": len(din._Device__in_messages.items()),
             "labelset": sorted({base.canon_label(t, l) for (t, l, k) in s.trace if k == "run"})}
     S.drop_sched()
